@@ -46,7 +46,10 @@ pub fn is_bare_none(e: &Expr) -> bool {
     match e {
         Expr::None_ => true,
         Expr::If(_, t, f) => is_bare_none(t) && is_bare_none(f),
-        Expr::Block(_, v) => is_bare_none(v),
+        Expr::Block(stmts, v) => {
+            is_bare_none(v)
+                || matches!(&**v, Expr::Var(n) if stmts.iter().any(|s| matches!(s, Stmt::Let(m, e) if m == n && is_bare_none(e))))
+        }
         Expr::Match(_, arms) => arms.iter().all(|(_, b)| is_bare_none(b)),
         _ => false,
     }
@@ -604,6 +607,40 @@ impl Gen {
             }
         }
         out
+    }
+
+    /// Streaming spine level: like `spine`, but the other positions take only their first small
+    /// leaf when `first_only`, and results are handed to `f` instead of being collected.
+    pub fn spine_stream(&self, sub: &BTreeMap<Ty, Vec<Expr>>, first_only: bool, f: &mut dyn FnMut(Ty, Expr)) {
+        for o in &self.ops {
+            for pos in 0..o.args.len() {
+                let Some(subs) = sub.get(&o.args[pos]) else { continue };
+                let others: Vec<Vec<Expr>> = o
+                    .args
+                    .iter()
+                    .enumerate()
+                    .map(|(k, t)| {
+                        if k == pos {
+                            vec![Expr::Todo] // placeholder, replaced below
+                        } else {
+                            let mut l = small_leaves(*t);
+                            if first_only {
+                                l.truncate(1);
+                            }
+                            l
+                        }
+                    })
+                    .collect();
+                for s in subs {
+                    self.combos(&others, &mut |mut args| {
+                        args[pos] = s.clone();
+                        if !o.rejects(&args) {
+                            f(o.ret, (o.build)(&self.names, args));
+                        }
+                    });
+                }
+            }
+        }
     }
 
     /// One representative depth-1 expression per operator (first small-leaf combination).
